@@ -113,6 +113,10 @@ func sym(v ssa.Value, d int) string {
 		for _, a := range x.Call.Args {
 			args = append(args, sym(a, d+1))
 		}
+		if k := callOrdinal(x); k > 1 {
+			// the k-th call of the same function with the same operands in this function: a different value
+			name += fmt.Sprintf("@%d", k)
+		}
 		return name + "(" + strings.Join(args, ",") + ")"
 	case *ssa.Slice:
 		s := sym(x.X, d+1) + "["
@@ -280,4 +284,56 @@ func ResolveLit(s string) string {
 		}
 		s = s[:i] + val + rest[k:]
 	}
+}
+
+var callOrdCache = map[*ssa.Function]map[*ssa.Call]int{}
+
+// callOrdinal numbers, in program order, the calls of one function that have
+// the same callee and the very same operands (1 for the first).
+func callOrdinal(c *ssa.Call) int {
+	f := c.Parent()
+	if f == nil {
+		return 1
+	}
+	m, ok := callOrdCache[f]
+	if !ok {
+		m = map[*ssa.Call]int{}
+		type key struct {
+			callee interface{}
+			args   string
+		}
+		count := map[key]int{}
+		for _, b := range f.Blocks {
+			for _, in := range b.Instrs {
+				call, ok := in.(*ssa.Call)
+				if !ok {
+					continue
+				}
+				var callee interface{}
+				switch {
+				case call.Call.IsInvoke():
+					callee = call.Call.Method
+				case call.Call.StaticCallee() != nil:
+					callee = call.Call.StaticCallee()
+				default:
+					continue
+				}
+				as := fmt.Sprintf("%p", call.Call.Value)
+				if call.Call.IsInvoke() {
+					as = fmt.Sprintf("%p", call.Call.Value)
+				}
+				for _, a := range call.Call.Args {
+					as += fmt.Sprintf("|%p", a)
+				}
+				k := key{callee, as}
+				count[k]++
+				m[call] = count[k]
+			}
+		}
+		callOrdCache[f] = m
+	}
+	if k, ok := m[c]; ok {
+		return k
+	}
+	return 1
 }
